@@ -183,7 +183,8 @@ func main() {
 }
 
 func OpenFile(filename string) *os.File {
-	f, err := os.OpenFile(filename, os.O_CREATE, os.ModeAppend)
+	// the file is written to (and truncated first), so it has to be opened for writing
+	f, err := os.OpenFile(filename, os.O_RDWR|os.O_CREATE, os.FileMode(0666))
 	if err != nil {
 		panic(err)
 	}
